@@ -11,9 +11,11 @@ Lemma step_ok_quiet S o s st' outs :
   S (op_writer o) = Some s -> replies_of outs = [] -> adds_okb o (adds_of outs) = true ->
   effective_hb s o = false ->
   step_ok S o (mk_sobs st' o outs)
-  = Some (supd S (op_writer o) (add_pts (spec_input s o) (map snd (adds_of outs)))).
+  = Some (supd S (op_writer o)
+            (set_sbase (add_pts (spec_input s o) (map snd (adds_of outs)))
+                       (match r_prox st' (op_writer o) with Some p => p_base p | None => 0 end))).
 Proof.
-  intros Hs Hr Ha He. unfold step_ok, mk_sobs. cbn [so_replies so_adds]. rewrite Hs, Hr, Ha, He.
+  intros Hs Hr Ha He. unfold step_ok, mk_sobs. cbn [so_replies so_adds so_base]. rewrite Hs, Hr, Ha, He.
   cbn [negb replies_ok andb]. reflexivity.
 Qed.
 
@@ -27,9 +29,12 @@ Definition InvW (st : rstate) (w : Z) (p : proxy) (s : wspec) : Prop :=
 
 Lemma Inv_InvW st S w p s : Inv st S -> r_prox st w = Some p -> S w = Some s -> InvW st w p s.
 Proof.
-  intros (I1 & _ & I3) Hp Hs. specialize (I1 w). rewrite Hp, Hs in I1. split; [exact I1|].
+  intros (I1 & _ & I3) Hp Hs. specialize (I1 w). rewrite Hp, Hs in I1. split; [exact (proj1 I1)|].
   intros sn. apply (I3 w s sn Hs).
 Qed.
+(* the summary carries the proxy's current ack base *)
+Lemma Inv_base st S w p s : Inv st S -> r_prox st w = Some p -> S w = Some s -> s_base s = p_base p.
+Proof. intros (I1 & _) Hp Hs. specialize (I1 w). rewrite Hp, Hs in I1. exact (proj2 I1). Qed.
 Lemma Inv_matched st S w : Inv st S -> (r_prox st w = None <-> S w = None).
 Proof.
   intros (I1 & _). specialize (I1 w). destruct (r_prox st w), (S w); try tauto; split; congruence.
@@ -40,14 +45,16 @@ Lemma Inv_step st S st' w p' s' :
   (forall k, k <> w -> r_prox st' k = r_prox st k) ->
   (forall k, k <> w -> r_asm st' k = r_asm st k) ->
   (forall fa, r_asm st' w = Some fa -> asm_ok fa) ->
-  InvW st' w p' s' -> Inv st' (supd S w s').
+  InvW st' w p' s' ->
+  Inv st' (supd S w (set_sbase s' (match r_prox st' w with Some p => p_base p | None => 0 end))).
 Proof.
-  intros (I1 & I2 & I3) Hp Hop Hoa Hfa [Hr Hf]. split; [|split].
-  - intros k. unfold supd. destruct (Z.eqb_spec k w) as [->|N]; [now rewrite Hp|].
+  intros (I1 & I2 & I3) Hp Hop Hoa Hfa [Hr Hf]. rewrite Hp. split; [|split].
+  - intros k. unfold supd. destruct (Z.eqb_spec k w) as [->|N].
+    { rewrite Hp. split; [now apply rel_set_sbase|reflexivity]. }
     rewrite (Hop k N). apply I1.
   - intros k fa. destruct (Z.eq_dec k w) as [->|N]; [apply Hfa|]. rewrite (Hoa k N). apply I2.
   - intros k s sn. unfold supd. destruct (Z.eqb_spec k w) as [->|N]; intros E.
-    + inversion E; subst. apply Hf.
+    + inversion E; subst. cbn [set_sbase s_frag]. apply Hf.
     + unfold is_partial. rewrite (Hoa k N). apply (I3 k s sn E).
 Qed.
 
@@ -65,7 +72,7 @@ Qed.
 
 (* summaries that [rel] cannot tell apart *)
 Lemma rel_same p s s' :
-  (forall m, known s' m = known s m) -> s_hbmax s' = s_hbmax s -> s_lastbase s' = s_lastbase s ->
+  (forall m, recorded s' m = recorded s m) -> s_hbmax s' = s_hbmax s -> s_lastbase s' = s_lastbase s ->
   s_lastcount s' = s_lastcount s -> rel p s -> rel p s'.
 Proof.
   intros Hk Hh Hb Hc [A B C D E]. constructor; [exact A| |congruence|lia|].
@@ -93,8 +100,8 @@ Proof.
     split; [right; reflexivity|]. cbn [adds_of flat_map app map snd].
     destruct Hr as [A B C D E]. constructor.
     + now apply rca_pinv.
-    + intros m. rewrite rca_known, B. unfold known, add_pts. cbn [s_lo s_rng s_pts app]. rewrite memz_cons.
-      destruct (m <? s_lo s), (existsb (in_rng m) (s_rng s)), (m =? sn), (memz m (s_pts s)); reflexivity.
+    + intros m. rewrite rca_known, B. unfold recorded, known, rec_view, add_pts. cbn [s_lo s_rng s_pts app]. rewrite memz_cons.
+      destruct (m <? s_lo s), (existsb (in_rng m) (map rec_rng (s_rng s))), (m =? sn), (memz m (s_pts s)); reflexivity.
     + now rewrite rca_hb.
     + cbn [s_lastbase add_pts]. pose proof (rca_base p sn). lia.
     + intros l. cbn [s_lastcount add_pts]. rewrite rca_an. apply E.
@@ -102,7 +109,8 @@ Qed.
 
 Lemma known_add_frag s sn m :
   known {| s_lo := s_lo s; s_rng := s_rng s; s_pts := s_pts s; s_hbmax := s_hbmax s; s_adv := s_adv s;
-           s_lastbase := s_lastbase s; s_lastcount := s_lastcount s; s_frag := sn :: s_frag s |} m
+           s_lastbase := s_lastbase s; s_lastcount := s_lastcount s; s_frag := sn :: s_frag s;
+           s_base := s_base s |} m
   = known s m.
 Proof. reflexivity. Qed.
 
@@ -267,6 +275,7 @@ Proof.
       destruct (Z.leb_spec 1 base); [lia|]. now rewrite andb_false_r. }
     destruct (S w) as [s|] eqn:Es; [|apply (Inv_matched _ _ w HI) in Es; congruence].
     destruct (Inv_InvW st S w p s HI Ep Es) as [Hrel Hf].
+    pose proof (Inv_base st S w p s HI Ep Es) as Hbase.
     cbn [fst snd].
     rewrite (step_ok_quiet S (Gap w start base numbits bits) s _ [OMark w _] Es eq_refl eq_refl eq_refl).
     eexists. split; [reflexivity|]. cbn [adds_of flat_map map op_writer]. rewrite add_pts_nil.
@@ -280,9 +289,12 @@ Proof.
     + split.
       * destruct Hrel as [A B C D E]. constructor.
         -- now apply sic_fold_pinv, icr_pinv.
-        -- intros m. rewrite sic_fold_known, icr_known, B. unfold known, in_range. cbn [s_lo s_rng s_pts existsb].
-           change (in_rng m (start, base)) with ((start <=? m) && (m <? base)). rewrite memz_app.
-           destruct (m <? s_lo s), ((start <=? m) && (m <? base)), (existsb (in_rng m) (s_rng s)), (memz m bits), (memz m (s_pts s)); reflexivity.
+        -- (* the proxy records exactly the cut range: the summary's ack base is the proxy's *)
+           intros m. rewrite sic_fold_known, icr_known, B, !recorded_unfold.
+           cbn [s_lo s_rng s_pts existsb].
+           generalize (existsb (fun r => (g_from r <=? m) && (m <? g_cut r)) (s_rng s)). intros e.
+           unfold in_range, icr_until, g_cut. cbn [g_from g_until g_ackbase]. rewrite Hbase, memz_app.
+           destruct (m <? s_lo s), (memz m bits), (memz m (s_pts s)), e, ((start <=? m) && _); reflexivity.
         -- rewrite sic_fold_hb, icr_hb. exact C.
         -- cbn [s_lastbase]. pose proof (sic_fold_base bits (irrelevant_changes_range p start base)).
            pose proof (icr_base p start base). lia.
